@@ -57,6 +57,10 @@ func protoCallback(callback *callback.Callback) *pb.Callback {
 }
 
 func protoRecv(recv *pb.Recv) ([]byte, error) {
+	if recv == nil {
+		return nil, status.Error(codes.InvalidArgument, "The field recv is required.")
+	}
+
 	switch r := recv.Recv.(type) {
 	case *pb.Recv_Logical:
 		return json.Marshal(&r.Logical)
